@@ -188,5 +188,7 @@ Proof.
   - rewrite CM', ST in DL. rewrite timeout_deadline_core_eq in DL by exact CC.
     destruct S0 as (S1 & S2 & S3 & _).
     pose proof (ta_dl _ T r l0 L0) as D0. unfold qdl in D0. rewrite <- S2, <- S3, CM', ST in D0.
-    rewrite timeout_deadline_core_eq in D0 by exact CC. lia.
+    rewrite timeout_deadline_core_eq in D0 by exact CC.
+    change (c_timeout (c <| c_lockid := lockid |>)) with (c_timeout c) in *.
+    change (tunit (c <| c_lockid := lockid |>)) with (tunit c) in *. lia.
 Qed.
